@@ -62,6 +62,10 @@ func checkC13(p *Prog, r *Report) {
 	ruleRatForm(p, r)
 	ruleDateForms(p, r)
 	ruleWsTok(p, r)
+	ruleEntity(p, r)
+	ruleMarkup(p, r)
+	r.Floor("MARKUP", 1)
+	r.Floor("ENTITY", 10)
 	r.Floor("WSTOK", 5)
 	r.Floor("DATEFORMS", 7)
 	r.Floor("RATFORM", 5)
